@@ -192,7 +192,7 @@ def expand(state):
                     mres.state.ledger = [e for e in state.ledger if e['loc'] in mres.state.o]
                     for p in H.invariant_restorable(mres.state, fsdirs)[:1]:
                         vs.append((dict(sig0, what=p['what'], variant='own+foreign-names'),
-                                   {'hist': state.hist + [['delname', ev[1], 'own+foreign']], 'problem': p}))
+                                   {'hist': state.hist + [['delname', ev[1], 'own+foreign', list(ev[2])]], 'problem': p}))
         # remaining snapshots stay restorable (guards the oracles above against vacuity)
         if ev[0] != 'snap':
             for p in H.invariant_restorable(new, fsdirs)[:1]:
@@ -261,6 +261,15 @@ def replay(case):
     s = make_initial_c08((kind, planted))
     v = []
     for ev in hist:
+        if ev[0] == 'delname' and ev[2] == 'own+foreign':
+            fam_ = s.users[ev[1]]['family']
+            foreign = [e for e in s.ledger if e['owner'] != ev[1] and s.users[e['owner']]['family'] == fam_]
+            names_ = tuple(s.ledger[i]['name'] for i in ev[3]) + (foreign[0]['name'],)
+            mres = H.apply(s, ('delname', ev[1], names_), fsdirs)
+            if mres.exc is None or mres.state.o != s.o:
+                mres.state.ledger = [e for e in s.ledger if e['loc'] in mres.state.o]
+                v += [p['what'] for p in H.invariant_restorable(mres.state, fsdirs)[:1]]
+            break
         res = H.apply(s, ev, fsdirs)
         v += [p['what'] for p in oracles(s, res, ev)]
         s = res.state
